@@ -263,6 +263,20 @@ func (x *Exec) call(st *State, c *ast.CallExpr) []Value {
 	if copyBack != nil {
 		copyBack()
 	}
+	if x.ct != nil {
+		for _, aa := range x.ct.AssumeAfter {
+			if aa.Case == cal.key {
+				env := x.specEnv(st)
+				for i := range res {
+					if i == 0 {
+						env.vars["result"] = res[i]
+					}
+					env.vars[fmt.Sprintf("result%d", i)] = res[i]
+				}
+				st.assume(env.evalBool(aa.Expr))
+			}
+		}
+	}
 	return res
 }
 
